@@ -133,6 +133,7 @@ pub fn run(ctx: &mut Ctx) {
     ctx.floor("roundtrip.ok", 20_000);
     ctx.floor("reserialize.ok", 20_000);
     ctx.floor("records.ok", 3_000);
+    ctx.floor("records.cap.ok", 12);
     ctx.floor("nyi.messages", 14);
     ctx.floor("nyi.extensions", 25);
     ctx.floor("ext.roundtrip", 3_000);
@@ -290,6 +291,42 @@ pub fn run(ctx: &mut Ctx) {
                 format!("c09:record:{}", if other.is_err() { "serialize-failed" } else { "bytes-differ-from-reference" }),
                 json!({"serialized": format!("{:.300?}", other.map(|b| hex_short(&b))), "reference_hex": hex_short(&want)}),
             ),
+        }
+    });
+
+
+    // ------------------------------------------------ records whose payload sits exactly at / just below the record-length cap
+    ctx.sweep("record-cap-boundaries", 12, |ctx, idx| {
+        let mut r = Rng::new(idx ^ 0xCA9);
+        let target = [16640usize, 16639, 16638, 16384, 16385, 16383][(idx % 6) as usize];
+        let (ct, msgs): (u8, Vec<AMsg>) = if idx < 6 {
+            // one ClientHello padded by its extension block to hit the target payload length
+            let mut ch = gen::client_hello(&mut r, gen::TINY);
+            ch.ext = Some(vec![]);
+            let base = ref_bytes(&AMsg::Hs(AHs::ClientHello(ch.clone()))).len();
+            ch.ext = Some(r.bytes(target - base));
+            (0x16, vec![AMsg::Hs(AHs::ClientHello(ch))])
+        } else if idx < 9 {
+            (0x14, vec![AMsg::Ccs; target])
+        } else {
+            let f = AMsg::Hs(AHs::Finished(r.bytes(target - 4 - 4)));
+            (0x16, vec![AMsg::Hs(AHs::HelloRequest), f])
+        };
+        let payload: Vec<u8> = msgs.iter().flat_map(|m| ref_bytes(m)).collect();
+        let want = record(ct, 0x0303, &payload);
+        let rec = TlsPlaintext { hdr: TlsRecordHeader { record_type: TlsRecordType(ct), version: TlsVersion(0x0303), len: 0 }, msg: msgs.iter().map(|m| m.expected()).collect() };
+        ctx.eval();
+        ctx.shape(&("record-cap", ct, payload.len()));
+        match rec.serialize() {
+            Ok(b) if b == want => {
+                let nf: Vec<AMsg> = msgs.iter().map(normal_form).collect();
+                let exp: Vec<TlsMessage> = nf.iter().map(|m| m.expected()).collect();
+                match parse_tls_plaintext(&b) {
+                    Ok((rem, p)) if rem.is_empty() && p.msg == exp && p.hdr.len as usize == payload.len() => ctx.count("records.cap.ok"),
+                    other => ctx.violation(format!("c09:record-at-cap:parse-back:len={}", payload.len()), json!({"payload_len": payload.len(), "parsed": format!("{:.200?}", other.map(|x| x.1.msg.len()))})),
+                }
+            }
+            other => ctx.violation(format!("c09:record-at-cap:serialize:len={}", payload.len()), json!({"payload_len": payload.len(), "result": format!("{:.100?}", other.map(|b| b.len()))})),
         }
     });
 
